@@ -15,6 +15,7 @@ from harness.common import REPO, VERIF, Disagreement, StreamResult, budget
 OPS = ["crop", "nodes", "junctions", "topology"]
 INPUTS = ["base", "coord", "attr", "order", "crs", "crs_area_only", "threshold", "area"]
 F10_KEY = "F10:byte-flip-that-leaves-the-pickle-loadable"
+F22_KEY = "F22:byte-flip-in-func_code.py"
 
 
 def child(calls, cache_dir=None, disable=False):
@@ -120,6 +121,8 @@ def s17_histories(ctx):
                     c = dict(case, call=[op, inp])
                     if flip and "exception" not in got:
                         c["finding_key"] = F10_KEY
+                    elif flip and "UnicodeDecodeError" in got.get("exception", "") and any("func_code.py" in f[0] for f in applied):
+                        c["finding_key"] = F22_KEY
                     res.disagreements.append(Disagreement("S17-histories", c, want, got, True,
                                                           "result or caller-visible side effect differs from the run with caching disabled"))
     res.samples = [hists[0]]
@@ -141,10 +144,29 @@ def replay(ctx, stream, case):
     return None
 
 
+def _replay_f22():
+    want = child([("crop", "base")], None, disable=True)[0]
+    d = Path(tempfile.mkdtemp(prefix="fv_c17g_", dir="/var/tmp"))
+    try:
+        child([("crop", "base")], d)
+        for f in cache_files(d):
+            if f.name == "func_code.py":
+                data = bytearray(f.read_bytes())
+                data[len(data) // 2] = 0xAB
+                f.write_bytes(bytes(data))
+                got = child([("crop", "base")], d)[0]
+                return "exception" in got and "exception" not in want
+        return None
+    finally:
+        shutil.rmtree(d, ignore_errors=True)
+
+
 def replay_finding(ctx, k):
     """F10: populate the cache for one crop call, flip one mantissa byte of a stored coordinate (1.15) and read again"""
     import struct
 
+    if k["id"] == "F22":
+        return _replay_f22()
     want = child([("crop", "base")], None, disable=True)[0]
     d = Path(tempfile.mkdtemp(prefix="fv_c17f_", dir="/var/tmp"))
     try:
